@@ -33,6 +33,7 @@ class Engine:
         self.ptr_order = []                          # cross-object pointer ordering comparisons seen
         self.fresh = 0
         self.trace = False
+        self.prefix_stubs = []
 
     # ------------------------------------------------------------------ solver
     def _sync(self, pc):
@@ -135,7 +136,7 @@ class Engine:
         if init == 'undef': return
         if rt.k == 'int':
             v = {'true': 1, 'false': 0}.get(init)
-            if v is None: v = int(init) & mask(rt.a)
+            if v is None: v = self.const_int(init) & mask(rt.a)
             o.cells[off] = (M.layout(rt)[0], v); return
         if rt.k in ('ptr', 'func'):
             o.cells[off] = (8, self.const_operand(init, rt)); return
@@ -162,6 +163,28 @@ class Engine:
                 self.init_cells(o, off + fo, et, e[j:].strip())
             return
         raise Unsupported("initialiser " + init[:40])
+
+    def const_int(self, tok):
+        """integer constant expression (switch lookup tables with relative offsets)"""
+        tok = tok.strip()
+        if re.match(r'-?\d+$', tok): return int(tok)
+        M = self.M
+        op = tok.split(None, 1)[0]
+        inner = tok[tok.index('(')+1: tok.rindex(')')]
+        if op in ('trunc', 'zext', 'sext', 'ptrtoint'):
+            k = inner.rindex(' to ')
+            t, i = M.parse_type(inner[:k]); tt, _ = M.parse_type(inner[k+4:])
+            if op == 'ptrtoint': return self.addr(self.const_operand(inner[:k][i:].strip(), t))
+            v = self.const_int(inner[:k][i:].strip()); fw = M.resolve(t).a; tw = M.resolve(tt).a
+            if op == 'sext': v = sgn(v & mask(fw), fw)
+            return v & mask(tw)
+        if op in ('sub', 'add'):
+            rest = re.sub(r'^(nuw |nsw )*', '', inner)
+            a, b = split_top(rest)
+            t, i = M.parse_type(a); t2, j = M.parse_type(b)
+            x = self.const_int(a[i:].strip()); y = self.const_int(b[j:].strip())
+            return (x - y if op == 'sub' else x + y) & mask(M.resolve(t).a)
+        raise Unsupported("integer constant expression " + tok[:60])
 
     def const_operand(self, tok, rt):
         if tok == 'null': return NULL
@@ -369,10 +392,16 @@ class Engine:
         so = self.getobj(st, s_.obj); self.getobj(st, d.obj); do = st.wobj(d.obj)
         if do.const: raise Violation('write-const', f"memcpy into constant object {do.name}")
         self._bounds(st, so, s_.off, n, 'memcpy read'); self._bounds(st, do, d.off, n, 'memcpy write')
-        if so.regions or do.regions:
-            # byte-wise through load/store (slow path, small n only)
-            if n > 4096 and not (so.regions and do.regions): raise Unsupported("large memcpy on region object")
-            sr = so.regions[0] if so.regions else None; dr = do.regions[0] if do.regions else None
+        def reg_of(o_, lo, hi):
+            for r_ in o_.regions:
+                if lo < r_.base + r_.esz*r_.cnt and hi > r_.base:
+                    if lo >= r_.base and hi <= r_.base + r_.esz*r_.cnt: return r_
+                    raise Unsupported("memory operation partially overlapping an array region")
+            return None
+        sr = reg_of(so, s_.off, s_.off + n); dr = reg_of(do, d.off, d.off + n)
+        if sr or dr:
+            # element-wise through load/store
+            if n > 1 << 16: raise Unsupported("large memcpy on region object")
             step = (sr or dr).esz
             if (s_.off - (sr.base if sr else 0)) % step or (d.off - (dr.base if dr else 0)) % step or n % step:
                 step = 1
@@ -415,8 +444,12 @@ class Engine:
         if d.obj == 0: raise Violation('null-deref', "memset with null pointer")
         self.getobj(st, d.obj); do = st.wobj(d.obj)
         self._bounds(st, do, d.off, n, 'memset')
-        if do.regions:
-            r = do.regions[0]
+        r = None
+        for r_ in do.regions:
+            if d.off < r_.base + r_.esz*r_.cnt and d.off + n > r_.base:
+                if d.off >= r_.base and d.off + n <= r_.base + r_.esz*r_.cnt: r = r_
+                else: raise Unsupported("memset partially overlapping an array region")
+        if r is not None:
             if not (is_c(v) and (d.off - r.base) % r.esz == 0 and n % r.esz == 0): raise Unsupported("memset on region")
             w = sum((v & 0xff) << (8*i) for i in range(r.esz))
             if n > 65536:
@@ -1066,6 +1099,9 @@ class Engine:
         if self.trace: print('  ' * len(st.frames), 'call', name[:100])
         if op == 'invoke': fr.inv = (d[5], d[6])
         stub = self.stubs.get(name)
+        if stub is None and self.prefix_stubs:
+            for pre, fn_ in self.prefix_stubs:
+                if name.startswith(pre): stub = fn_; break
         if stub is not None:
             st.x['_log'] = ()
             r = stub(self, st, argv)
@@ -1098,6 +1134,12 @@ class Engine:
         if name.startswith('llvm.memset'):
             self.memset(st, self.use(st, argv[0], 'memset dest'), self.use(st, argv[1], 'memset value'), argv[2]); return
         if name == 'llvm.trap': raise Abort('trap')
+        if name.startswith('llvm.load.relative'):
+            p = self.use(st, argv[0], 'load.relative base'); off = self.use(st, argv[1], 'load.relative offset')
+            q = Ptr(p.obj, self.addoff(p.off, off, 64, 1))
+            rel = self.use(st, self.load(st, q, 4), 'relative table entry')
+            if not is_c(rel): raise Unsupported("symbolic relative table entry")
+            fr.env[dst] = self.int2ptr((self.addr(p) + sgn(rel, 32)) & mask(64)); return
         base = name.split('.')[1]
         w = int(name.rsplit('.i', 1)[1])
         if base in ('umax', 'umin', 'smax', 'smin'):
